@@ -456,9 +456,10 @@ Fixpoint run_loop (st : pst) (evs : list sx) : list sx :=
   | [] => []
   | e :: rest =>
       match e with
-      | SL (SN 8%Z :: _) =>
+      | SL (SN 8%Z :: _) | SL (SN 11%Z :: _) =>
           (* a peer reads what the proxy has written to it and the loop gets its writable event: nothing
-             the model distinguishes (sockets deliver at once in the model; the buffers are FIFO: C19) *)
+             the model distinguishes (sockets deliver at once in the model; the buffers are FIFO: C19);
+             (11 ..) is the record of what a readable-and-writable event flushed, for the oracle *)
           sx_observe st :: run_loop st rest
       | _ =>
       match sx_event st e with
@@ -910,6 +911,7 @@ Fixpoint check_replies (limit : Z) (pw : bytes) (reqs : list (list bytes)) (reps
   | r :: _, [] => viol "more-replies-than-requests" [snat i; SB r]
   | r :: reps', q :: reqs' =>
       if (has_prefix r (bs "-MOVED") || has_prefix r (bs "-ASK"))%bool then viol "redirect-error-leaked-to-client" [snat i; SB r]
+      else if (limit <? Z.of_nat (length r))%Z then viol "reply-larger-than-the-limit-delivered" [snat i; snat (length r)]
       else
         let good := match expected_reply limit pw q with Some e => beqb r e | None => false end in
         if (good || Cluster.memb r proxy_fault_errors)%bool then check_replies limit pw reqs' reps' (S i)
@@ -1056,6 +1058,13 @@ Definition o_loop (a : sx) : sx :=
       let tables := ranges :: concat (map (fun e => match e with SL [SN 9%Z; _; SL rs] => [rs] | _ => [] end) evs) in
       if (negb (Z.eqb tmo 0) && scan_leaves_requests false evs obs)%bool
       then viol "request-not-completed-by-the-timeout-scan" []
+      else
+      (* C09: one event that is readable and writable (record (11 client backlog drained got)): replies
+         were piled up for the client, the client has just emptied its socket - the event must flush *)
+      if existsb (fun e => match e with
+                           | SL [SN 11%Z; _; SN before; SN drained; SN got] => (0 <? before)%Z && (0 <? drained)%Z && Z.eqb got 0
+                           | _ => false end) evs
+      then viol "backlog-not-flushed-on-a-readable-and-writable-event" []
       else
       (* (a) C09: never a completed head at the end of an event *)
       if existsb (fun o => match o with
